@@ -64,7 +64,8 @@ PROFILES = {
 }
 
 HEAL_WORKLOAD = [["quick", 0], ["cfg", 0], ["quick", 1], ["cfg", 1], ["dev", 0]]
-MAX_STEPS = 6000
+MAX_STEPS = 60000  # harness safety net only (a run that needs more is a harness error, not a verdict)
+PHASE_TIME_BOUND_US = 90_000_000  # liveness: simulated time a phase may take beyond the stalls and pauses injected into it
 
 # ----------------------------------------------------------------------------------------------
 # worker-level state
@@ -533,6 +534,10 @@ class Run:
         holders: dict = {}
         step = 0
         self.log.add("phase", pi, "procs", len(procs))
+        t_phase = self.now
+        # every lock wait is bounded by filelock's 10 s time-out, a start takes a handful of them at most: a phase that
+        # is not over 90 simulated seconds after the injected stalls and pauses have been served does not make progress
+        allowance = PHASE_TIME_BOUND_US + sum(int((s_.get("stall") or {}).get("us", 0)) + sum(int(q["us"]) for q in s_.get("pauses") or []) for s_ in ph["procs"])
         while True:
             alive = [p for p in procs if not p.finished]
             if not alive:
@@ -541,11 +546,15 @@ class Run:
             if not runnable:
                 self.now = min(p.wake for p in alive)
                 continue
+            if self.now - t_phase > allowance:
+                for p in alive:
+                    self.advance(p, {"a": "die"})
+                self.violation("O1-never-fatal", "unbounded", f"phase {pi}: processes still running after {(self.now - t_phase) // 1_000_000} simulated seconds ({step} scheduler steps)")
+                break
             if step >= MAX_STEPS:
                 for p in alive:
                     self.advance(p, {"a": "die"})
-                self.violation("O1-never-fatal", "unbounded", f"phase {pi}: processes still running after {MAX_STEPS} scheduler steps")
-                break
+                raise HarnessError(f"phase {pi}: {MAX_STEPS} scheduler steps were not enough ({(self.now - t_phase) // 1_000_000} simulated seconds)")
             c = sched[step] if step < len(sched) else rng.randrange(1 << 16)
             p = runnable[c % len(runnable)]
             y = p.pending
@@ -749,7 +758,14 @@ class Run:
         if ph.get("special"):
             cuts += [0, 1, 2, n - 1, n - 2] + self.frame_boundaries(content) + [b - 1 for b in self.frame_boundaries(content)] + [b + 1 for b in self.frame_boundaries(content)]
             # prefixes that end in the pickle STOP opcode ('.') look complete to a naive check
-            stops = [k for k in range(1, n) if content[k - 1] == 0x2E]
+            # (the stored fingerprint of the config cache hashes absolute paths, i.e. this worker's private scratch
+            # folder: those 20 bytes are not looked at, or the choice of cut points would depend on the process id)
+            masked = bytearray(content)
+            hpos = content.find(b"db_hash")
+            hval = content.find(b"C\x14", hpos, hpos + 40) if hpos >= 0 else -1
+            if hval >= 0:
+                masked[hval + 2 : hval + 22] = bytes(20)
+            stops = [k for k in range(1, n) if masked[k - 1] == 0x2E]
             cuts += stops[:: max(1, len(stops) // 24)][:30]
         cuts = sorted({c for c in cuts if 0 <= c < n})
         fb = set(self.frame_boundaries(content))
